@@ -27,6 +27,8 @@ type TagReader struct {
 	Err       string // set on values reconstructed from a stream that ended in an error
 	Closed    int
 	OnRead    func()
+	OnFail    func()
+	failed    bool
 }
 
 var ErrRawBody = errors.New("raw body source failed (simulated)")
@@ -46,6 +48,10 @@ func (r *TagReader) Read(p []byte) (int, error) {
 	}
 	if r.pos >= end {
 		if r.FailAfter >= 0 && r.FailAfter < len(r.Data) {
+			if !r.failed && r.OnFail != nil {
+				r.failed = true
+				r.OnFail()
+			}
 			return 0, ErrRawBody
 		}
 		return 0, io.EOF
